@@ -78,7 +78,7 @@ def build_shim():
     return SHIM
 
 
-def run_harness(cases, tag, fake_epoch=None, jobs=8, timeout_s=20):
+def run_harness(cases, tag, fake_epoch=None, jobs=8, timeout_s=45):
     """cases: list of case dicts (each with a unique 'id'). Returns list of observation dicts in order."""
     build_harness()
     d = os.path.join(OUT, "run")
